@@ -8,7 +8,9 @@ EXTENDS Verdict, TLC, Json
 
 CONSTANTS MaxStack
 Reachable == {0, 2, 3, 4, 5}          \* no rule of the analysis yields POSSIBLY_UNSAFE; the order half covers it
-CliOpts == {"default", "print", "json", "print+json"}
+CliOpts == {"default", "print", "json", "print+json",
+            "json_bad"}      \* the report path cannot be opened for appending (a missing directory): whatever the CLI does
+                             \* about it, its exit status must not be zero for a file that holds a flagged pickle
 CmpOps == {"lt", "le", "gt", "ge", "eq", "ne"}
 \* how the file reaches the CLI: named on the command line, redirected standard input (seekable), or a pipe
 \* (standard input that cannot seek: the stack must still be read to its end)
